@@ -11,12 +11,16 @@ import re
 SCAN_LIMIT = 64 * 1024        # bufio.MaxScanTokenSize: a line of >= this many bytes does not fit
 UPLOAD_LIMIT = 100 * 1024     # GO_TELEMETRY_MAX_REQUEST_BYTES default of the upload server
 
-BASE = datetime.date(2024, 2, 27)
+BASES = [datetime.date(2024, 2, 27),      # crosses Feb 29 / Mar 1 of a leap year
+         datetime.date(2023, 12, 27),     # crosses the year boundary
+         datetime.date(2025, 2, 25),      # crosses Feb 28 / Mar 1 of a common year
+         datetime.date(2024, 10, 28)]     # crosses a month of 31 days
+BASE = BASES[0]
 
 
-def date_of(d):
-    """model day number (1-based) -> YYYY-MM-DD (crosses Feb 29 / Mar 1)"""
-    return (BASE + datetime.timedelta(days=d - 1)).isoformat()
+def date_of(d, base=0):
+    """model day number (1-based) -> YYYY-MM-DD"""
+    return (BASES[base] + datetime.timedelta(days=d - 1)).isoformat()
 
 
 # ----------------------------------------------------------------- reports
@@ -246,7 +250,7 @@ def tla_charts(descs):
 
 
 # ------------------------------------------------------------- generators
-GOVERS = ['go1.21.0', 'go1.21.5', 'go1.22.1', 'go1.22rc1', 'go1.20']
+GOVERS = ['go1.21.0', 'go1.21.5', 'go1.22.1', 'go1.22rc1', 'go1.9.7', 'go1.20']   # go1.9 < go1.20 only numerically
 P_GOPLS = 'golang.org/x/tools/gopls'
 P_GO = 'cmd/go'
 P_VULN = 'golang.org/x/vuln/cmd/govulncheck'
@@ -256,23 +260,29 @@ def base_config(variant=0):
     cfg = {
         'GOOS': ['darwin', 'linux'],
         'GOARCH': ['amd64', 'arm64'],
-        'GoVersion': list(GOVERS[:4 if variant % 2 == 0 else 5]),
+        'GoVersion': list(GOVERS[:5 if variant % 2 == 0 else 6]),
         'SampleRate': 1,
         'Programs': [
             # versions of equal semver precedence but different text, and non-versions
             {'Name': P_GOPLS, 'Versions': ['v0.14.0', 'v0.15.0-pre.1', 'v0.15.0', 'v0.15.0+incompatible', 'v0.15', 'v0.15.0+build.7', 'devel', 'v0.14'],
              'Counters': [{'Name': 'gopls/editor:{emacs,vim}', 'Rate': 1}, {'Name': 'main', 'Rate': 1}]},
-            {'Name': P_GO, 'Versions': list(GOVERS[:4]),
+            {'Name': P_GO, 'Versions': list(GOVERS[:5]),
              'Counters': [{'Name': 'go/flag:{a,b}', 'Rate': 1}]},
         ],
     }
     if variant % 3 == 1:
         cfg['Programs'].append({'Name': P_VULN, 'Versions': ['v1.0.0', 'v1.0.1', 'v1', 'v1.0.1+meta', '(devel)'],
                                 'Counters': [{'Name': 'govulncheck/scan:{source,binary,source}', 'Rate': 1},   # duplicate bucket
+                                             # non-ASCII and characters encoding/json escapes
+                                             {'Name': 'govulncheck/\u00e9diteur:{vim<1>,emacs&co,\u65e5\u672c}', 'Rate': 1},
                                              {'Name': 'gopls/editor:{emacs,vim}', 'Rate': 1}],
                                 'Stacks': [{'Name': 'govulncheck/bug', 'Rate': 1, 'Depth': 8}]})
     if variant % 3 == 2:
         cfg['Programs'][0]['Counters'].append({'Name': 'gopls/gotoolchain:auto', 'Rate': 1})
+        # a bucket that itself contains ':' (the name splits at the FIRST colon) and a program
+        # the configuration knows nothing about but its name
+        cfg['Programs'][0]['Counters'].append({'Name': 'gopls/a:b:{c,d:e}', 'Rate': 1})
+        cfg['Programs'].append({'Name': 'example.com/bare', 'Versions': []})
     return cfg
 
 
@@ -289,7 +299,7 @@ def random_prog(rng, cfg, off_config=0.25):
     for cc in pc.get('Counters') or []:
         for e in expand(cc['Name']):
             if rng.random() < 0.45:
-                counters[e] = rng.choice([0, 1, 1, 2, 7, 1000000])
+                counters[e] = rng.choice([0, 1, 1, 2, 7, 1000000, 9223372036854775807, -1])
         ch, _ = split_counter(cc['Name'])
         if rng.random() < 0.15:
             counters[ch + ':unlisted'] = 3
@@ -304,7 +314,7 @@ def random_prog(rng, cfg, off_config=0.25):
 
 
 def random_report(rng, cfg, week, x, size=None):
-    n = rng.choice([0, 1, 1, 1, 2, 2, 3])
+    n = rng.choice([0, 1, 1, 1, 2, 2, 3, 8])
     rep = report(week, x, [random_prog(rng, cfg) for _ in range(n)])
     if size:
         pad_report(rep, size)
